@@ -12,6 +12,7 @@ from hypothesis import strategies as st
 
 from .. import formcheck, inputs, kernels, refeval, specs, strategies
 from ..common import Run, ShardResult, run_shards, scratch, spec_hash, verif_seed
+from ..common import thorough  # noqa: E402
 from ..hyp import Outcome, drive
 
 PROP = "C18"
@@ -324,8 +325,8 @@ def shard(shard, nshards, n, seed, n_real=1):
 
 def run(tier: str) -> int:
     run_ = Run(PROP, tier, "exploration", RULE)
-    n = 6 if tier == "quick" else 120
-    for part in run_shards(shard, 16, n=n, seed=verif_seed(), n_real=1 if tier == "quick" else 8):
+    n = 6 if tier == "quick" else thorough(50)
+    for part in run_shards(shard, 16, n=n, seed=verif_seed(), n_real=1 if tier == "quick" else 4):
         run_.merge(part)
     run_.assumptions = [
         "kernels are executed in plain Python with a numba shim (carray = exact-size numpy view); in addition a sample (1 form per shard quick, 8 thorough) "
